@@ -129,4 +129,46 @@ theorem flvMuxW_spec (t K : Nat) (hv ha : Bool) (tags : List Tag) :
       · rw [hf.out, List.take_append_of_le_length (Nat.le_of_lt hf.short)]
       · intro hk; simp only [List.length_append, writeHeader_length] at hk; omega
 
+
+/-! ### handshake writes: three direct transport writes, each `Wrap`ped -/
+
+theorem hsWritesW_spec {K : Nat} (t : Nat) : ∀ (parts : List (String × Bytes)) (A : Bytes) (w : BW), Healthy K A w → w.buf = [] →
+    (hsWritesW t w parts).2.2.out = (A ++ (parts.map (·.2)).flatten).take K ∧
+    ((A ++ (parts.map (·.2)).flatten).length ≤ K → (hsWritesW t w parts).2.1 = none ∧ (hsWritesW t w parts).1 = parts.length) ∧
+    (K < (A ++ (parts.map (·.2)).flatten).length → ∃ e, (hsWritesW t w parts).2.1 = some e ∧ e.cause = .root t) := by
+  intro parts
+  induction parts with
+  | nil =>
+    intro A w h hb
+    have hout : w.out = A := by have := h.bytes; rwa [hb, List.append_nil] at this
+    have hl : A.length ≤ K := by have := h.budget; rw [hout] at this; omega
+    simp only [hsWritesW, List.map_nil, List.flatten_nil, List.append_nil, List.length_nil, and_self, implies_true, true_and]
+    exact ⟨by rw [hout, List.take_of_length_le hl], fun hk => by omega⟩
+  | cons pt parts ih =>
+    intro A w h hb
+    obtain ⟨msg, p⟩ := pt
+    unfold hsWritesW
+    simp only [List.map_cons, List.flatten_cons, ← List.append_assoc, List.length_cons]
+    rcases directWrites_spec (K := K) t [p] A w h hb with ⟨hh, hb1, he⟩ | ⟨he, hf⟩
+    · simp only [List.flatten_cons, List.flatten_nil, List.append_nil] at hh
+      cases hx : directWrites t w [p] with
+      | mk w1 e1 =>
+        rw [hx] at hh hb1 he
+        dsimp only at hh hb1 he
+        subst he
+        dsimp only
+        obtain ⟨h1, h2, h3⟩ := ih (A ++ p) w1 hh hb1
+        exact ⟨h1, fun hk => ⟨(h2 hk).1, by rw [(h2 hk).2]⟩, h3⟩
+    · simp only [List.flatten_cons, List.flatten_nil, List.append_nil] at hf
+      cases hx : directWrites t w [p] with
+      | mk w1 e1 =>
+        rw [hx] at hf he
+        dsimp only at hf he
+        subst he
+        dsimp only
+        have hs := hf.short
+        refine ⟨?_, fun hk => ?_, fun _ => ⟨_, rfl, rfl⟩⟩
+        · rw [hf.out, List.take_append_of_le_length (Nat.le_of_lt hf.short)]
+        · simp only [List.length_append] at hk hs; omega
+
 end Oryx.IoFault
